@@ -597,14 +597,14 @@ def run(ck, progs):
     describe(ck)
     for cfg, prog in progs.items():
         if cfg.startswith("omp"):
-            groups = r02a(ck, prog)
-            r02b(ck, prog, groups)
-            n = r02c(ck, prog)
-            r02d(ck, prog)
-        r02e(ck, prog)
-        r02g(ck, prog)
+            groups = ck.attempt(r02a, ck, prog)
+            ck.attempt(r02b, ck, prog, groups)
+            n = ck.attempt(r02c, ck, prog)
+            ck.attempt(r02d, ck, prog)
+        ck.attempt(r02e, ck, prog)
+        ck.attempt(r02g, ck, prog)
     if len(progs) > 1:
-        r02h(ck, progs)
+        ck.attempt(r02h, ck, progs)
     else:
         ck.info("R02h", "cross-configuration agreement is evaluated in the thorough tier (all four configurations)")
     return ("OpenMP structure from the clang AST built with -fopenmp: CFG open-region analysis from every task to its "
